@@ -40,9 +40,11 @@ ASSUMPTIONS = [
 
 # Candidate-finding classes that the generator steers around so that the search
 # continues behind them. Remove an entry once the defect is fixed in /repo.
-AVOID = {'std-pilot-flag', 'pzx-zero-boundary', 'pzx-empty-data-tail', 'tail-pop-range'}
+AVOID = {'pzx-zero-boundary', 'pzx-empty-data-tail'}
 SIG_F12 = 'pzx-data-asym-lastbyte'
-CLASS_IDS = {SIG_F12: 'F12', 'std-pilot-flag': 'F20', 'pzx-zero-boundary': 'F21', 'pzx-empty-data-tail': 'F22', 'tail-pop-range': 'F23'}
+# ids of the candidate classes are provisional (to be replaced by F numbers if they are registered in known_findings.json)
+CLASS_IDS = {SIG_F12: 'F12', 'std-pilot-flag': 'F29', 'pzx-zero-boundary': 'F31', 'pzx-empty-data-tail': 'F32',
+             'tail-pop-range': 'F30'}
 
 
 # ---------------------------------------------------------------------------
